@@ -35,8 +35,13 @@ def random_dag(rnd, n, width=4, order='random', regs=0):
     for k in range(n):
         a = rnd.choice(wires); b = rnd.choice(wires)
         o = s.wire('n%d' % k, width)
-        kind = rnd.choice(['And2', 'Or2', 'Add', 'Sub', 'Not', 'Buf'])
-        plan.append((kind, a, b, o)); wires.append(o)
+        kind = rnd.choice(['And2', 'Or2', 'Add', 'Sub', 'Not', 'Buf', 'Swap'])
+        if kind == 'Swap':
+            # a block with two output ports (each read by later blocks): o and o2
+            o2 = s.wire('m%d' % k, width)
+            plan.append((kind, a, b, (o, o2))); wires.append(o); wires.append(o2)
+        else:
+            plan.append((kind, a, b, o)); wires.append(o)
     idx = list(range(n))
     if order == 'random': rnd.shuffle(idx)
     elif order == 'reversed': idx.reverse()
@@ -47,6 +52,15 @@ def random_dag(rnd, n, width=4, order='random', regs=0):
         elif kind == 'Add': q(py4hw.Add, s, 'g%d' % k, a, b, o)
         elif kind == 'Sub': q(py4hw.Sub, s, 'g%d' % k, a, b, o)
         elif kind == 'Not': q(py4hw.Not, s, 'g%d' % k, a, o)
+        elif kind == 'Swap':
+            # two single-leaf outputs from one LEAF with two output ports: BitsLSBF-like behaviour via ConcatenateMSBF + two Range
+            # (a leaf with several output ports: Mux2 pair would be two leaves; use BitsLSBF on a 2-bit concat when width==1)
+            import py4hw.logic.bitwise as B
+            if width == 1:
+                cat = s.wire('cat%d' % k, 2); q(B.ConcatenateMSBF, s, 'cat%d' % k, [b, a], cat)
+                q(B.BitsLSBF, s, 'g%d' % k, cat, [o[0], o[1]])
+            else:
+                q(py4hw.Buf, s, 'g%da' % k, a, o[0]); q(py4hw.Buf, s, 'g%db' % k, b, o[1])
         else: q(py4hw.Buf, s, 'g%d' % k, a, o)
     return s, ins, plan
 
@@ -56,6 +70,8 @@ def eval_plan(plan, invals, width):
     val = dict(invals)
     for kind, a, b, o in plan:
         x = val[id(a)]; y = val[id(b)]
+        if kind == 'Swap':
+            val[id(o[0])] = x; val[id(o[1])] = y; continue
         val[id(o)] = {'And2': x & y, 'Or2': x | y, 'Add': (x + y) & m, 'Sub': (x - y) & m, 'Not': (~x) & m, 'Buf': x}[kind]
     return val
 
